@@ -376,14 +376,14 @@ def run_case_programs(chk, cases, program, name, per=150, timeout_ms=30000, mod_
     return results
 
 
-def tlc_validate_sharded(chk, module, cfg, recs, name, shards=6, timeout=3000, env=None):
+def tlc_validate_sharded(chk, module, cfg, recs, name, shards=6, timeout=3000, env=None, per_shard=200):
     """Validate trace records with <module>.tla in `shards` parallel TLC runs (one worker each).
     Returns the list of (global index, BAD payload)."""
     import concurrent.futures
     n = len(recs)
     if n == 0:
         return []
-    shards = max(1, min(shards, (n + 199) // 200))
+    shards = max(1, min(shards, (n + per_shard - 1) // per_shard))
     size = (n + shards - 1) // shards
     parts = []
     for s in range(shards):
